@@ -202,7 +202,7 @@ for _combo in range(5):
                 U("%s_path_c%dk%dn%d" % (_kind, _combo, _ns, _pn), entry=_entry, func=_fn,
                   defs={"quick": ["-DPATHN=%d" % _pn, "-DNSEC=%d" % _ns, "-DTREE_COMBO=%d" % _combo, "-DCFGV_FIXED_DUP=8"]}, cbmc=unw(_pn + 2) + NOOOM, tiers=_tiers, timeout=1800,
                   label="bounded(path <= %d bytes over all bytes; tree root{a, s{b}}: %s with %d instance(s), titles 1 byte; no allocation failure; fixed-size string copies)" % (_pn, COMBOTXT[_combo], _ns),
-                  props=["C11", "C06", "C02"] if _kind == "getopt" else ["C11", "C02"], term_props=["C11", "C02"], cost=100 if _pn == 3 else 600, **RES)
+                  props=["C11", "C06", "C02"] if _kind == "getopt" else ["C11", "C02"], term_props=["C11", "C02"], cost=100 if _pn == 3 else 600, replay="replay/resolve.c", **RES)
 for _c in range(4):
     U("getopt_array_c%d" % _c, entry="h_getopt_array", func="cfg_getopt_array", defs={"quick": ["-DPATHN=3", "-DCFGV_FIXED_DUP=8", "-DGA_CASE=%d" % _c], "thorough": ["-DPATHN=4", "-DCFGV_FIXED_DUP=8", "-DGA_CASE=%d" % _c]},
       cbmc={"quick": unw(5) + NOOOM, "thorough": unw(6) + NOOOM},
@@ -211,7 +211,7 @@ for _c in range(4):
 for _kind, _entry in (("getopt", "h_getopt_path"), ("getsec", "h_getsec_path")):
     U("%s_deep_c0k1n5" % _kind, entry=_entry, func="cfg_getopt_secidx (three levels)", defs={"quick": ["-DPATHN=5", "-DNSEC=1", "-DTREE_COMBO=0", "-DTREE_DEEP", "-DCFGV_FIXED_DUP=8"]},
       cbmc=unw(7) + NOOOM, timeout=1800, label="bounded(path <= 5 bytes over all bytes; three-level tree root{a, s{b, t{c}}}, single sections; no allocation failure)",
-      props=["C11", "C02"], term_props=["C11", "C02"], cost=900, **RES)
+      props=["C11", "C02"], term_props=["C11", "C02"], cost=900, replay="replay/resolve.c", **RES)
 U("set_validate", entry="h_set_validate", func="cfg_set_validate_func, cfg_set_validate_func2", defs={"quick": ["-DPATHN=3", "-DCFGV_FIXED_DUP=8"]}, cbmc=unw(5) + NOOOM,
   remove=["cfg_getopt_array"], carriers=["carriers/cfg_getopt_array.c"], label="proof (loop-free; the schema resolver by contract)", props=["C14", "C02"], cost=10, **RES)
 U("getopt_array_leaf", entry="h_getopt_array_leaf", func="cfg_getopt_array (nested-call contract)", defs={"quick": ["-DPATHN=3", "-DCFGV_FIXED_DUP=8"]}, cbmc=unw(5) + NOOOM,
